@@ -12,7 +12,10 @@ structure WF (cfg : Cfg) : Prop where
   mnd : cfg.mchrs.Nodup
   bnd : cfg.bchrs.Nodup
   m_iff : ∀ c, c ∈ cfg.mchrs ↔ c ∈ cfg.chrs
-  b_iff : ∀ c, c ∈ cfg.bchrs ↔ c ∈ cfg.chrs
+  /-- with `--read_group file:…` every chromosome of the reference is in the BAM header (`split_read_group_table` writes
+      one table per header contig, `create_read_grouper` opens one per reference contig); the header may list more
+      contigs; without a read-group table nothing depends on the header -/
+  b_sub : cfg.rg = .file → ∀ c ∈ cfg.chrs, c ∈ cfg.bchrs
 
 /-- the locks that may vouch for a path (independent of the configuration) -/
 def locksOf : Path → List Path
